@@ -34,6 +34,11 @@ enum Scenario {
     /// the per-request timeout while the connection stays healthy), the others are answered in `perm` order
     /// before the timeout passes; every position reports its OWN outcome
     BatchTimeout { kind: Kind, n: usize, silent: u32, reversed: bool },
+    /// the client's own notifies mixed with its calls (pattern bit i set: a notify is issued before call i):
+    /// every frame the client writes, notify or request, carries its own id; the peer then "answers" every
+    /// notify (a response frame bearing the notify's id) before / after the real replies: each call still
+    /// returns the response to its own request
+    MixNotify { kind: Kind, n: usize, pattern: u32, acks_first: bool },
     /// the blocking Client over real loopback TCP: n caller threads, scripted peer
     PermBlocking { n: usize, perm: Vec<usize>, extra: Extra, pos: usize },
     BatchBlocking { n: usize, perm: Vec<usize> },
@@ -156,6 +161,15 @@ fn scenarios(tier: Tier) -> Vec<Scenario> {
             for silent in 1..(1u32 << n) - 1 {
                 for reversed in [false, true] {
                     batch_timeouts.push(Scenario::BatchTimeout { kind, n, silent, reversed });
+                }
+            }
+        }
+    }
+    for kind in [Kind::Async, Kind::Ws] {
+        for n in 1..=tier.pick(3, 5) {
+            for pattern in 1..(1u32 << n) {
+                for acks_first in [false, true] {
+                    batch_timeouts.push(Scenario::MixNotify { kind, n, pattern, acks_first });
                 }
             }
         }
@@ -409,6 +423,73 @@ async fn run_perm_sub(kind: Kind, n: usize, perm: &[usize], extra: Extra, pos: u
     }
     drop(peer);
     (bad, flags)
+}
+
+async fn run_mix_notify(kind: Kind, n: usize, pattern: u32, acks_first: bool) -> (Bad, u64) {
+    let mut bad = Bad::new();
+    let ctx = format!("{} {n} calls, a notify issued before call i for i in {:?}, the peer answering the notifies {}", kind.name(), (0..n).filter(|i| pattern & (1 << i) != 0).collect::<Vec<_>>(), if acks_first { "before the real replies" } else { "after the real replies" });
+    let Conn { cli, mut peer, .. } = clients::connect(kind).await;
+    let mut hs = Vec::new();
+    for i in 0..n {
+        if pattern & (1 << i) != 0 {
+            let _ = cli.notify(900 + i as u64, 0).await;
+        }
+        hs.push(tokio::spawn(cli.call(800 + i as u64, None, 0)));
+        memstream::settle().await;
+    }
+    let reqs = match peer.drain_requests().await {
+        Ok(r) => r,
+        Err(e) => return (vec![("C04:request-stream-malformed".into(), e)], 0),
+    };
+    let mut seen = std::collections::BTreeMap::new();
+    for f in &reqs {
+        if let Some(prev) = seen.insert(f.h.id, f.h.notify) {
+            bad.push(("C04:duplicate-request-id".into(), format!("{ctx}: id {} was used by two frames of this connection (notify flags {prev} and {})", f.h.id, f.h.notify)));
+        }
+    }
+    let ids = clients::tag_ids(&reqs);
+    let notify_ids: Vec<u64> = reqs.iter().filter(|f| f.h.notify != 0).map(|f| f.h.id).collect();
+    let acks = |peer: &mut clients::Peer| {
+        let v: Vec<crate::frames::Frame> = notify_ids
+            .iter()
+            .map(|id| {
+                let mut f = clients::reply(*id);
+                f.body = br#"{"ack_of_notify":true}"#.to_vec();
+                f.h.body_length = f.body.len() as u64;
+                f.h.length = 48 + f.h.query_length + f.h.body_length;
+                f
+            })
+            .collect();
+        let _ = peer;
+        v
+    };
+    let ack_frames = acks(&mut peer);
+    if acks_first {
+        for f in &ack_frames {
+            peer.send(f).await;
+        }
+        memstream::settle().await;
+    }
+    for i in 0..n {
+        if let Some(id) = ids.get(&(800 + i as u64)) {
+            peer.send(&clients::reply(*id)).await;
+        }
+    }
+    memstream::settle().await;
+    if !acks_first {
+        for f in &ack_frames {
+            peer.send(f).await;
+        }
+        memstream::settle().await;
+    }
+    for (i, h) in hs.into_iter().enumerate() {
+        let r = clients::join_call(h).await;
+        let want = ids.get(&(800 + i as u64)).copied();
+        if want.map(Res::Id) != Some(r.clone()) {
+            bad.push((format!("C04:wrong-response:{}", match &r { Res::Hang => "hang", Res::Err(_) | Res::Timeout => "error", _ => "other-call" }), format!("{ctx}: call #{i} (request id {want:?}) returned {r:?}")));
+        }
+    }
+    (bad, 8)
 }
 
 async fn run_batch_timeout(kind: Kind, n: usize, silent: u32, reversed: bool) -> (Bad, u64) {
@@ -1175,6 +1256,7 @@ pub fn run(tier: Tier) -> ! {
                     Scenario::Perm { kind, n, perm, extra, pos, burst } => run_perm(*kind, *n, perm, *extra, *pos, *burst).await,
                     Scenario::Batch { kind, n, perm } => run_batch(*kind, *n, perm).await,
                     Scenario::BatchTimeout { kind, n, silent, reversed } => run_batch_timeout(*kind, *n, *silent, *reversed).await,
+                    Scenario::MixNotify { kind, n, pattern, acks_first } => run_mix_notify(*kind, *n, *pattern, *acks_first).await,
                     Scenario::Early { k, queued_behind } => run_early(*k, *queued_behind).await,
                     Scenario::ForwardDuplicate { n, victim } => run_forward_duplicate(*n, *victim).await,
                     Scenario::PermBlocking { n, perm, extra, pos } => run_perm_blocking(*n, perm, *extra, *pos, false),
@@ -1261,6 +1343,7 @@ pub fn replay(case: &Value) -> Result<(), String> {
             Scenario::Perm { kind, n, perm, extra, pos, burst } => run_perm(*kind, *n, perm, *extra, *pos, *burst).await,
             Scenario::Batch { kind, n, perm } => run_batch(*kind, *n, perm).await,
                     Scenario::BatchTimeout { kind, n, silent, reversed } => run_batch_timeout(*kind, *n, *silent, *reversed).await,
+                    Scenario::MixNotify { kind, n, pattern, acks_first } => run_mix_notify(*kind, *n, *pattern, *acks_first).await,
             Scenario::Early { k, queued_behind } => run_early(*k, *queued_behind).await,
             Scenario::ForwardDuplicate { n, victim } => run_forward_duplicate(*n, *victim).await,
             Scenario::PermBlocking { n, perm, extra, pos } => run_perm_blocking(*n, perm, *extra, *pos, false),
